@@ -1,4 +1,7 @@
 import DateutilVerif.Properties.C08
+import DateutilVerif.Properties.C08Abbr   -- fix D-C08b: accepted strings have letter abbreviations
+import DateutilVerif.Properties.C08NoRule   -- strings without a rule part: the default-rule branch of tzstr._delta
+import DateutilVerif.Properties.C08Pure   -- one object, many calls: answers are a function of the constructor arguments and the query
 import DateutilVerif.Properties.TzGen   -- translator tie (wt-iso): obligations about the re-translated lookup functions
 import DateutilVerif.Properties.TzObjGen   -- translator tie (wt-iso): tzrange/tzstr construction
 #print axioms C08.rule_instant
@@ -38,3 +41,15 @@ import DateutilVerif.Properties.TzObjGen   -- translator tie (wt-iso): tzrange/t
 #print axioms C08.gen_eq_model_tzlocal_isdst
 #print axioms C08.gen_eq_model_tzlocal_utcoffset
 #print axioms C08.gen_eq_model_tzlocal_tzname
+#print axioms C08.range_answers_pure
+#print axioms C08.tzstr_answers_pure
+#print axioms C08.same_arguments_same_answers
+#print axioms C08.default_rule_delta
+#print axioms C08.default_end_seconds
+#print axioms C08.tzstr_norule_zone
+#print axioms C08.tzstr_norule_posix
+#print axioms C08.abbr_run_is_letters
+#print axioms C08.tzstr_abbr_letters
+#print axioms C08.norule_parse_table_uu
+#print axioms C08.norule_parse_table_mm
+#print axioms C08.tzstr_norule_hours
